@@ -1,9 +1,38 @@
 import SoundeventModel.Ops.Common
+import SoundeventModel.Buffer
 namespace SE.Ops.C11
-open Lean SE
+open Lean SE SE.Buf
 
-def handle (op : String) (_a : Json) : Except String Json := do
+def handle (op : String) (a : Json) : Except String Json := do
   match op with
+  | "buffer" =>
+    -- `lib`: what the shapely pipeline returned in this run (absent: it is not consulted / raised)
+    let g ← getGeom (← fld a "g")
+    let lib : Option Geom ← match fldOpt a "lib" with
+      | some j => do pure (some (← getGeom j))
+      | none => pure none
+    return optRaiseJ geomJ (bufferGeometry (fun _ _ _ => lib) g (← fldRat a "tb") (← fldRat a "fb"))
+  | "valid" =>
+    return valJ (boolJ (valid (← getGeom (← fld a "g"))))
+  | "shapely_post" =>
+    -- the validator and the bounds-level post-condition on an observed result of the pipeline
+    let g ← getGeom (← fld a "g")
+    let r ← getGeom (← fld a "r")
+    let tb ← fldRat a "tb"
+    let fb ← fldRat a "fb"
+    let tol ← fldRat a "tol"
+    let b ← geomBounds g
+    let isPoly := match r with
+      | .polygon _ => true
+      | .multiPolygon _ => true
+      | _ => false
+    match r.bounds with
+    | none => return valJ (Json.mkObj [("valid", boolJ (valid r)), ("poly", boolJ isPoly), ("bounds", Json.null)])
+    | some rb =>
+      return valJ (Json.mkObj [
+        ("valid", boolJ (valid r)), ("poly", boolJ isPoly), ("bounds", boundsJ rb),
+        ("post", boolJ (bufferPostTol tol b tb fb rb)), ("post_strict", boolJ (bufferPost b tb fb rb)),
+        ("shortfall", ratsJ (shortfall b tb fb rb))])
   | _ => .error s!"C11: unknown op {op}"
 
 end SE.Ops.C11
